@@ -525,7 +525,7 @@ func (self *FieldMask) All() bool {
 
 // IsBlack tells if the FieldMask is black-list or white-list
 func (self *FieldMask) IsBlack() bool {
-	return self.isBlack
+	return self != nil && self.isBlack
 }
 
 // Type tells its FieldMaskType, which is decided by the Thrift Path definition.
